@@ -27,7 +27,7 @@ COMPONENTS = {
 }
 ASSUMPTIONS = [
     "reference = the same call alone with fresh components in a cold child; computed under hash seeds 0 and 4242 which must agree",
-    "exception messages are not compared, only exception classes",
+    "outcomes of failing calls: exception class; for ParseError the structured errors (description, line, col, context excerpts) in order; for sqlglot's other errors and for ValueError (bad dialect settings) the message text with addresses masked",
     "asynchronous cancellation is not injected; stack exhaustion is (RecursionError at a PRNG-chosen margin) and only the steps AFTER it are judged",
     "ASLR is disabled for templates when `setarch -R` works; address perturbation is injected explicitly instead",
 ]
@@ -228,6 +228,9 @@ def build_pool(seed, tier):
     calls.extend(amb)
     for d, q, col, sch in corpus.LINEAGE_CASES:
         calls.append({"op": "lineage", "sql": q, "read": d, "schema": sch, "column": col})
+    for bad in corpus.BAD_SETTINGS:
+        calls.append({"op": "transpile", "sql": "SELECT 1", "read": bad, "write": None})
+        calls.append({"op": "generate", "sql": "SELECT a FROM t", "read": None, "write": bad, "opts": {}})
 
     # Focus groups: several calls that all go to ONE component configuration (same generator class + options, same parser
     # + error level, same tokenizer), drawn from inputs that touch per-instance state. A "focus" history replays a group on
